@@ -38,7 +38,8 @@ RULE = ("generated command lines (see Domain). non-trivial: check - at least one
         "parameters. distinct by canonical JSON")
 ASSUMPTIONS = [
     "custom argument names never collide with the command's own options or with model parameter names",
-    "values do not start with '-' and carry no leading/trailing quotes (the CLI strips quotes; click owns single-dash tokens)",
+    "values carry no leading/trailing quotes (the CLI strips them), do not start with '--', and a value starting with a "
+    "single dash contains none of the command's own short option letters",
     "a bare flag is never directly followed by a model file (the CLI reads that as flag + value by design)",
     "generators that declare an empty parameter list are not generated (whether that counts as 'declares' is not stated)",
     "model files exist and are valid UTF-8",
@@ -53,7 +54,9 @@ DESIGN_REF = "DESIGN.md section 4 C30"
 GRAMMAR = "Model: items+=Item;\nItem: 'item' name=ID ('->' ref=[Item])? ';';\n"
 WORDS = ["flag", "my", "out", "dir", "x", "n1", "long", "name", "v2", "skip", "keywords", "dry", "run"]
 RESERVED = {"target", "language", "overwrite", "grammar", "ignore-case", "output-path", "help", "debug", "project_root"}
-VALUES = ["v", "42", "a b", "x=y", "path/to/x", "ünï", "True", "0", "some.file", "it's ok", "a--b"]
+# values may start with a single dash (click hands unknown short options through unchanged); the letters of the command's
+# own short options (-o, -i, -h) are kept out of such values because click would take them
+VALUES = ["v", "42", "a b", "x=y", "path/to/x", "ünï", "True", "0", "some.file", "it's ok", "a--b", "-5", "-", "-x", "-1.5e3"]
 
 
 @st.composite
